@@ -513,6 +513,8 @@ func init() {
 			c01(map[string]int{"N": 2, "PRE": 2, "OPMAX": 1}, 30),
 			c01(map[string]int{"N": 2, "PRE": 5, "OPMAX": 1}, 10),
 			c01(map[string]int{"N": 2, "PRE": 1, "OPMAX": 1, "LPM": 0, "SYMQ": 1}, 10),
+			// primary keys that are prefixes of one another, two writes per transaction
+			c01(map[string]int{"N": 2, "PRE": 3, "IDSET": 1, "WPT": 2, "OPMAX": 1}, 10),
 			step,
 		},
 		Thorough: []HarnessRun{
@@ -520,6 +522,7 @@ func init() {
 			c01(map[string]int{"N": 2, "PRE": 2, "OPMAX": 2}, 30),
 			c01(map[string]int{"N": 2, "PRE": 6, "OPMAX": 1}, 10),
 			c01(map[string]int{"N": 3, "PRE": 0, "OPMAX": 1, "LPM": 0, "SYMQ": 1, "L": 2}, 10),
+			c01(map[string]int{"N": 2, "PRE": 3, "IDSET": 1, "WPT": 3, "OPMAX": 2}, 10),
 			step,
 		},
 		Known: []KnownProbe{{ID: "KF-lpm-tail-alias", Entry: "VerifC01LpmEntryStep"}},
